@@ -192,7 +192,9 @@ func (al *agentListener) serv(c *conn2) {
 			ac := &agentConnection{
 				Laddr: v.Laddr,
 				Raddr: v.Raddr,
-				in:    make(chan []byte),
+				// one pending wake-up is kept for a reader that has seen an empty
+				// buffer but is not waiting yet
+				in:    make(chan []byte, 1),
 				out:   out,
 			}
 
